@@ -181,6 +181,7 @@ pub fn main(args: &[String]) {
                     None => { n_panics += 1; let class = if dc.file0 { "dwarf-emit-panics:v5-row-names-file-0" } else if dc.one_seq { "dwarf-emit-panics:sequence-spanning-functions" } else { "dwarf-emit-panics" };
                         viol.push(Json::obj(vec![("class", Json::s(class)), ("props", Json::s("C10 C02")), ("what", Json::s(format!("{}: parse/emit with generate_dwarf panics on well-formed DWARF", vname))), ("input", Json::s(crate::c03::hex(&input)))])); continue; } };
                 if variant == 2 && amod::validate(&run.out, feats).is_err() { continue; }
+                if let Err(e) = amod::validate(&run.out, feats) { if !(variant == 1 && e.contains("undeclared function reference")) { viol.push(Json::obj(vec![("class", Json::s("output-invalid-with-dwarf")), ("props", Json::s("C02 C10")), ("what", Json::s(format!("{}: the module emitted with generate_dwarf does not validate: {}", vname, e))), ("input", Json::s(crate::c03::hex(&input)))])); } }
                 let b = match amod::decode(&run.out) { Ok(b) => b, Err(_) => continue };
                 let dout = match read_dwarf(&run.out) { Some(d) => d, None => { viol.push(mk("dwarf-output-unreadable", "gimli cannot read the emitted debug sections".into())); continue; } };
                 n_cases += 1;
